@@ -67,15 +67,18 @@ Invalid == 9
 \* 15 tpdefer topProducts(first: ARG){upc name ... @defer {reviews{body author{username}}}}   incremental delivery (merged)
 \* 16 pecho   echo(filter: {kind: ARG, min: 1, owner: {id: "7"}, tags: ["x", ARG]}, n: $direct)   (configuration 2)
 \*            input-object argument with a NESTED variable next to a direct one; the subgraph echoes what it received
-Cfg(s) == IF s \in {10, 11, 12, 13, 16} THEN 2 ELSE 1
+\* 17 pmeta   echo(filter:{kind:"k"}, n: $direct) me @meta(in: {tags: ["t", ARG], nested: {value: ARG}}) {id name}   (configuration 2)
+\*            a variable nested TWO levels deep in the literal of a custom directive's argument (directive arguments are not
+\*            extracted), after a direct variable that is visited earlier
+Cfg(s) == IF s \in {10, 11, 12, 13, 16, 17} THEN 2 ELSE 1
 IsMutation(s) == s = 14
-ArgKind(s) == CASE s \in {1, 5, 15} -> "int" [] s = 3 -> "enum" [] s = 14 -> "str" [] s = 16 -> "nested" [] OTHER -> "none"
+ArgKind(s) == CASE s \in {1, 5, 15} -> "int" [] s = 3 -> "enum" [] s = 14 -> "str" [] s \in {16, 17} -> "nested" [] OTHER -> "none"
 HasDir(s) == s \in {1, 2, 4, 5}
-NVal(s) == CASE s \in {1, 5, 14, 15, 16} -> 3 [] s = 3 -> 2 [] OTHER -> 1
+NVal(s) == CASE s \in {1, 5, 14, 15, 16, 17} -> 3 [] s = 3 -> 2 [] OTHER -> 1
 
 HasVars(r) == \/ ArgKind(r.s) # "none" /\ r.src \in {"var", "dflt"}
               \/ HasDir(r.s) /\ r.ds = "var"
-              \/ r.s = 16                                  \* the direct variable is always there
+              \/ r.s \in {16, 17}                          \* the direct variable is always there
 
 WellFormed(r) ==
   /\ r.s \in Shapes /\ r.nm \in Nms /\ r.src \in Srcs /\ r.dir \in Dirs /\ r.ds \in DSrcs
@@ -117,7 +120,8 @@ DbAfter(r, db) == IF IsMutation(r.s) /\ r.val # Invalid THEN Append(db, r.val) E
 \* values and removed (so the decision is part of the normalized operation); a variable default is moved into the
 \* variables like a literal; the operation name stays in the document.  (Measured on all 7275 menu requests: the
 \* engine's printed normalized operations are in bijection with the values of Norm.)
-Norm(r) == [s |-> r.s, op |-> r.op, dir |-> r.dir]
+\* Arguments of a custom directive are NOT extracted: a literal there stays in the document (shape 17).
+Norm(r) == [s |-> r.s, op |-> r.op, dir |-> r.dir, lit |-> IF r.s = 17 /\ r.src = "lit" THEN r.val + 1 ELSE 0]
 Key(r) == IF KeyDropsDirs THEN [Norm(r) EXCEPT !.dir = 0] ELSE Norm(r)
 \* per-request state (resolve.Context: Variables, RemapVariables)
 Ctx(r) == [val |-> r.val, nm |-> r.nm]
